@@ -181,16 +181,36 @@ func pipelineWorker(args []string) {
 				shared = cuecontext.New() // bound the growth of the shared context
 			}
 			evs = append(evs, runPipeline(shared, 1, p.Src)...)
-			// run 2 is repeated; a repeat that differs from the first one is the one reported
+			// run 2 is repeated, first sequentially, then four at a time on separate goroutines (each
+			// with its own fresh context); a repeat that differs from the first one is the one reported
 			r2 := runPipeline(cuecontext.New(), 2, p.Src)
-			for k := 0; k < 5; k++ {
-				again := runPipeline(cuecontext.New(), 2, p.Src)
-				if fmt.Sprint(plKey(again)) != fmt.Sprint(plKey(r2)) {
-					if fmt.Sprint(plKey(r2)) == fmt.Sprint(plKey(evs)) {
-						r2 = again
-					}
-					break
+			differs := func(again []plEvent) bool { return fmt.Sprint(plKey(again)) != fmt.Sprint(plKey(r2)) }
+			var other []plEvent
+			for k := 0; k < 2 && other == nil; k++ {
+				if again := runPipeline(cuecontext.New(), 2, p.Src); differs(again) {
+					other = again
 				}
+			}
+			if other == nil {
+				res := make([][]plEvent, 4)
+				var wg sync.WaitGroup
+				for g := range res {
+					wg.Add(1)
+					go func() {
+						defer wg.Done()
+						res[g] = runPipeline(cuecontext.New(), 2, p.Src)
+					}()
+				}
+				wg.Wait()
+				for _, again := range res {
+					if differs(again) {
+						other = again
+						break
+					}
+				}
+			}
+			if other != nil && fmt.Sprint(plKey(r2)) == fmt.Sprint(plKey(evs)) {
+				r2 = other
 			}
 			evs = append(evs, r2...)
 		} else {
@@ -285,8 +305,8 @@ func runBatch(r *kit.Run, progs []plProg, runs string, timeoutMs, memMB int) map
 
 func checkC02(r *kit.Run) {
 	r.Assumptions = []string{
-		"inputs: programs a/b/c over the 114-expression pool of Pipeline.tla (every hand-picked cyclic / erroneous program plus a seeded sample; all triples are out of reach: 10^6), byte-level mutants of four seed programs (operation x position x inserted text), and token soups of CueTokens.tla up to 2 (thorough 3) tokens",
-		"each input runs in isolated worker processes with a ceiling of 10 s and 2 GB; three runs: context used for other programs before, fresh context (repeated six times, a differing repeat is the one recorded), another process; outputs are compared by digest of the printed CUE / JSON / YAML / error text",
+		"inputs: programs a/b/c over the 115-expression pool of Pipeline.tla (every hand-picked cyclic / erroneous program plus a seeded sample; all triples are out of reach: 10^6), byte-level mutants of four seed programs (operation x position x inserted text), and token soups of CueTokens.tla up to 2 (thorough 3) tokens",
+		"each input runs in isolated worker processes with a ceiling of 10 s and 2 GB; three runs: context used for other programs before, fresh context (repeated three times in sequence and four times concurrently on separate goroutines, a differing repeat is the one recorded), another process; outputs are compared by digest of the printed CUE / JSON / YAML / error text",
 		"a subset of the inputs (all hand-picked programs and a sample) also goes three times through the cue binary built from the working tree (cue eval, cue export --out json, cue export --out cue): exit status 0 or 1 only, identical output",
 	}
 	tres, err := kit.RunTLC(kit.TLCOpts{Module: "Pipeline", CfgText: "INIT TablesInit\nNEXT Stutter\nCONSTANTS Family = \"api\" Mode = \"automaton\" Sample = 0 MaxPos = 0\n", Dump: true, Workers: 1, Timeout: 5 * time.Minute})
